@@ -152,6 +152,11 @@ pub fn run(ctx: &mut Ctx) {
                 |_, idx| {
                     let mut rng = Rng::for_case(seed, "C15r", idx);
                     let s = |rng: &mut Rng| if rng.chance(1, 6) { rng.range(100, 700) as u32 } else { rng.range(1, 40) as u32 };
+                    if idx < 10_000 {
+                        // every size quadruple in 1..=10 first (transposed aspects, equal aspects, one-pixel sides all occur)
+                        let d = |k: u64| ((idx / 10u64.pow(k as u32)) % 10) as u32 + 1;
+                        return Some(F { sw: d(0), sh: d(1), dw: d(2), dh: d(3), cx: centering(&mut rng), cy: centering(&mut rng) });
+                    }
                     Some(F { sw: s(&mut rng), sh: s(&mut rng), dw: s(&mut rng), dh: s(&mut rng), cx: centering(&mut rng), cy: centering(&mut rng) })
                 },
                 |f| json!({"src": [f.sw, f.sh], "dst": [f.dw, f.dh], "centering": [f64_show(f.cx), f64_show(f.cy)]}),
@@ -179,6 +184,25 @@ pub fn run(ctx: &mut Ctx) {
                                 }
                             }
                             Err(e) => viols.push(Viol::new("fit_resize_error", format!("{}x{} -> {}x{} centering ({}, {}): {:?}", sw, sh, dw, dh, f.cx, f.cy, e)).sig(json!({"clause": "in_bounds"}))),
+                        }
+                        // the same through the dynamic entry point (Resizer::resize on ImageRef / Image): its option plumbing is separate
+                        {
+                            let bytes: Vec<u8> = src.iter().map(|p| p.0).collect();
+                            let simg = fr::images::ImageRef::new(sw, sh, &bytes, fr::PixelType::U8).unwrap();
+                            let mut dimg = fr::images::Image::new(dw, dh, fr::PixelType::U8);
+                            let mut r = resizer(Ext::Avx2);
+                            stats.count("resize_calls_dynamic", 1);
+                            match r.resize(&simg, &mut dimg, &opts) {
+                                Ok(()) => {
+                                    if want.as_ref().map_or(true, |w| w.iter().map(|p| p.0).ne(dimg.buffer().iter().copied())) {
+                                        viols.push(
+                                            Viol::new("fit_option_uses_another_box", format!("dynamic entry point, {}x{} -> {}x{} centering ({}, {}) {}: the result differs from a resize with the crop box {:?} that fit_src_into_dst_size returns", sw, sh, dw, dh, f.cx, f.cy, alg.short(), b))
+                                                .sig(json!({"clause": "centering"})),
+                                        );
+                                    }
+                                }
+                                Err(e) => viols.push(Viol::new("fit_resize_error", format!("dynamic entry point, {}x{} -> {}x{} centering ({}, {}): {:?}", sw, sh, dw, dh, f.cx, f.cy, e)).sig(json!({"clause": "in_bounds"}))),
+                            }
                         }
                     }
                     // default centering
